@@ -39,6 +39,10 @@ EVENTS = [
     ("include-unterminated", "abort", "include(\"c08_unterm.conf\")\n"),
     ("unknown-option", "abort", "zzz = 1\n"),
     ("backslash-at-end", "abort", "zs = \"abc\\"),
+    ("ends-in-func-args", "abort", "fn(\"stale\","),
+    ("ends-in-list", "abort", "zl = {p, q,"),
+    ("ends-in-title", "abort", "sec \"tt\""),
+    ("accepted-include-via-searchpath", "parse", "include(\"c08_sp.conf\")\n"),
     ("read-error-in-sq", "abort-fail", "zs = 'abc"),
     ("read-error-in-dq", "abort-fail", "zs = \"abc"),
     ("read-error-plain", "abort-fail", "zi = 1\n"),
@@ -64,7 +68,9 @@ PROBES = [
     "dep = 2\n",
     "depl += z\n# c\n",
     "dep = 5\n# c\ndepl = {}\n",
+    "include(\"c08_sp.conf\")\nfn(x, \"y z\")\n",     # found through the context's own search path (differs between the two contexts)
 ]
+SP_PROBE = len(PROBES) - 1
 FILES = {
     "c08_bad.conf": "zi = x\n", "c08_self.conf": "include(\"c08_self.conf\")\n", "c08_unterm.conf": "zs = \"never closed",
 }
@@ -85,11 +91,12 @@ class C08:
     variants = ("asan",)
     rule = ("all histories of length <= 3 (quick) / <= 4 (thorough) over %d events (two accepted parses; parses ending inside "
             "\"...\", '...', /*...; bad escape; integer / float out of range; error inside an included file; self-including "
-            "file; missing include; include of a file ending inside a string; unknown option; backslash as last byte; free + "
+            "file; missing include; include of a file ending inside a string; unknown option; backslash as last byte; ends inside a function call / list / title; "
+            "failing streams; an include resolved through the context's own search path; free + "
             "re-init; switch between two live contexts; free of the other context) followed by %d probes (every token kind, "
             "10-deep include chain, LONG_MAX, texts ending in each quoting state, a failing and a plain text); differential "
             "oracle: the same history with every aborting parse removed, run in a fresh process, must give identical return "
-            "codes, diagnostics (file, line, count) and trees (sacrificial options ignored) for every remaining parse and "
+            "codes, diagnostics (file, line, count), callback invocations and trees (sacrificial options ignored) for every remaining parse and "
             "every probe. Non-trivial = history with >= 1 aborting parse; distinct = distinct histories" % (len(EVENTS), len(PROBES)))
     assumptions = ["aborting texts only mention sacrificial options (an aborted parse may leave earlier items applied)",
                    "each run is a fresh child process of the fork server (the scanner has never run in it)"]
@@ -104,6 +111,19 @@ class C08:
         s.add("env", hx("HOME"), hx("/home/x"))
         for n, c in FILES.items():
             s.add("mkfile", hx(os.path.join(base, n)), hx(c))
+        for d, v in (("spA", "fromA"), ("spB", "fromB")):
+            s.add("mkdir", hx(os.path.join(base, d)))
+            s.add("mkfile", hx(os.path.join(base, d, "c08_sp.conf")), hx("s = %s\n" % v))
+        real_add = s.add
+
+        def add(*toks):
+            i = real_add(*toks)
+            if toks[0] == "init":
+                # every context has its own search path: the common directory, then a private one
+                real_add("searchpath", toks[1], hx(base))
+                real_add("searchpath", toks[1], hx(os.path.join(base, "spA" if toks[1] == 1 else "spB")))
+            return i
+        s.add = add
         s.add("init", 1, 0, 0)
         s.add("init", 2, 0, 0)
         alive = {1: True, 2: True}
@@ -156,27 +176,41 @@ class C08:
             if alive[h]:
                 s.add("free", h)
         ia = s.add("allocstat")
+        self.last_cur = cur
         return s, obs, ia
 
     _alone = None
 
-    def alone(self, get_ex):
+    @staticmethod
+    def observe(e, dump_entry, k):
+        """what a probe shows irrespective of the state it is parsed into: return code, diagnostics, function calls, and
+        for the search-path probe the value it assigns"""
+        calls = [(c["k"], c["opt"], c.get("argv")) for c in e.get("cb", [])]
+        own = None
+        if k == SP_PROBE and dump_entry is not None:
+            own = [o["v"] for o in dump_entry["tree"]["opts"] if bytes.fromhex(o["n"]).decode() == "s"]
+        return (e["rc"], [(f, l) for f, l, m in unhex_diag(e)], calls, own)
+
+    def alone(self, get_ex, ctx):
         if C08._alone is None:
+            C08._alone = {}
+        if ctx not in C08._alone:
             out = []
+            sw = [ev for ev in EVENTS if ev[1] == "switch"]
             for k in range(len(PROBES)):
-                saved = list(PROBES)
-                s, obs, ia = self.script([], only_probe=k)
+                s, obs, ia = self.script(sw if ctx == 2 else [], only_probe=k)
                 r = get_ex("asan", 10).run(s)
                 t = by_index(r.trace)
                 e = t.get(obs[0][1])
-                out.append((e["rc"], [(f, l) for f, l, m in unhex_diag(e)]) if e is not None else ("died", []))
-            C08._alone = out
-        return C08._alone
+                out.append(self.observe(e, t.get(obs[0][2]), k) if e is not None else ("died", [], [], None))
+            C08._alone[ctx] = out
+        return C08._alone[ctx]
 
     def check_case(self, case, get_ex):
         events = [EVENTS[k] for k in case["history"]]
         ref = [e for e in events if e[1] not in ("abort", "abort-fail")]
         s1, o1, a1 = self.script(events)
+        cur1 = self.last_cur
         s2, o2, a2 = self.script(ref)
         r1 = get_ex("asan", 10).run(s1)
         r2 = get_ex("asan", 10).run(s2)
@@ -205,6 +239,11 @@ class C08:
             if d1 != d2:
                 fail = Failure("diagnostics-differ/after-%s" % (aborts[-1] if aborts else "none"), "history %r: %s diagnostics %r, reference %r" % (names, n1, unhex_diag(e1), unhex_diag(e2)))
                 break
+            c1 = [(c["k"], c["opt"], c.get("argv")) for c in e1.get("cb", [])]
+            c2 = [(c["k"], c["opt"], c.get("argv")) for c in e2.get("cb", [])]
+            if c1 != c2:
+                fail = Failure("callbacks-differ/after-%s" % (aborts[-1] if aborts else "none"), "history %r: %s callback invocations %r, reference %r" % (names, n1, c1, c2))
+                break
             if strip(t1[id1]["tree"]) != strip(t2[id2]["tree"]):
                 fail = Failure("tree-differs/after-%s" % (aborts[-1] if aborts else "none"), "history %r: tree after %s differs from the reference run\n%r\nvs\n%r" % (
                     names, n1, strip(t1[id1]["tree"]), strip(t2[id2]["tree"])))
@@ -212,10 +251,10 @@ class C08:
         if fail is None:
             # return code and diagnostics of every probe do not depend on what was parsed before at all (the probe texts are
             # acceptable in every state): compare with the probe parsed alone into a fresh context of a fresh process
-            alone = self.alone(get_ex)
+            alone = self.alone(get_ex, cur1)
             for k, (n1, ip1, id1) in enumerate(o1[-len(PROBES):]):
                 e1 = t1[ip1]
-                got = (e1["rc"], [(f, l) for f, l, m in unhex_diag(e1)])
+                got = self.observe(e1, t1[id1], k)
                 if got != alone[k]:
                     fail = Failure("probe-differs-from-fresh-context/probe%d" % k, "history %r: probe %d %r gives rc/diagnostics %r; alone in a fresh context %r" % (
                         names, k, PROBES[k], got, alone[k]))
